@@ -420,7 +420,21 @@ def c19(run):
                                 "the real binary's conv asca, run -o and conv json round trip are compared with it and with asca::run")
 
 
+def c20(run):
+    from vcheck import build_cli
+    run.assumptions += ["the binary under test is built from /repo's working tree into .build/cli (unhooked)", "rule files, group names and word files are fixed real texts in harness/src/seq.rs; the config is what TLC chose",
+                        "MC_Seq uses the free interpretation of the stage functions (a lexicon = the sequence of operations that produced it), which covers every interpretation"]
+    binpath = build_cli()
+    mc_job(run, "MC_Seq", "mc/MC_Seq.tla", "mc/MC_Seq%s.cfg" % ("_thorough" if run.tier == "thorough" else ""),
+           "M: the resolver with call stack and per-tag cache, for every config of %d tags (every from function, cyclic and dangling included) and every request order: "
+           "validator accepts iff acyclic and no dangling reference; every delivered/cached result is the composition along the chain; termination" % (4 if run.tier == "thorough" else 3))
+    res = run_tlc("GEN_Seq", "gen/GEN_Seq.tla", "gen/GEN_Seq_%s.cfg" % run.tier, env=dict(run.known_env(), VERIF_ASCA_BIN=binpath), consumer=[HARNESS, "replay", "C20"], timeout=6000, workers=4)
+    run.add_tlc("GEN_Seq", res, "S->I: seeded project configs of 4 tags (chains, forks, cycles, dangling references, ! and ~ filters in mixed case, extra word files, every declaration order) with the plan "
+                                "Seq.tla prescribes; real `asca seq -o -y`, `-t tag`, `conv tag -r` compared with the plan executed through asca::run; invalid configs must exit non-zero in bounded time")
+
+
 PROPS = {
+    "C20": (c20, "model_checking"),
     "C19": (c19, "model_checking"),
     "C01": (c01, "model_checking"),
     "C09": (c09, "model_checking"),
